@@ -17,7 +17,9 @@ EXTENDS Unparse, Json
 
 CONSTANT MaxSteps
 
-Payloads == { <<"LT", "b", "GT">>, <<"AMP", "APOS", "QUOT", "PLAIN">>, <<"AMP", "l", "t", ";">>, <<"MB", "LT", "CJK">>, <<"o", "k">> }
+\* every special character also occurs as the only special character of a payload (a sink that looks for "some" special character before escaping)
+Payloads == { <<"LT", "b", "GT">>, <<"AMP", "APOS", "QUOT", "PLAIN">>, <<"AMP", "l", "t", ";">>, <<"MB", "LT", "CJK">>, <<"o", "k">>,
+              <<"x", "APOS", "y">>, <<"QUOT", "z">>, <<"a", "GT">>, <<"AMP">> }
 
 Starts == {"lit", "bqlit", "ctxstr", "ctxhtml", "htmler", "rawlit", "rawctx", "field", "htmlfield", "mapel", "strsel", "anyel", "helper", "strs", "anys"}
 Trusted(s) == s \in {"ctxhtml", "htmler", "rawlit", "rawctx", "htmlfield"}
